@@ -422,6 +422,73 @@ fn short_name_attack(sub: &mut Report, model: &AutosarModel, version: AutosarVer
     }
 }
 
+/// directed part: "exactly the sub elements reported as currently allowed can be created", one level deep for every element type:
+/// an element of the type is built, one of its possible sub elements is created, then every entry of
+/// list_valid_sub_elements() is tried (created and removed again) and is_allowed must equal the outcome
+fn allowed_sweep(rep: &mut Report, walk: &SpecWalk, thorough: bool) {
+    let n_types = walk.types.len();
+    let shards = 64;
+    let seed = rep.seed;
+    run_shards(rep, shards, cpu_count(), 64, |shard, sub| {
+        for ti in (shard..n_types).step_by(shards) {
+            let t = walk.types[ti].etype;
+            if matches!(t.content_mode(), ContentMode::Characters) {
+                continue;
+            }
+            let mask = path_versions(walk, t);
+            let mut versions: Vec<AutosarVersion> = ALL_VERSIONS.iter().copied().filter(|v| mask & *v as u32 != 0).collect();
+            if versions.is_empty() {
+                continue;
+            }
+            if !thorough {
+                // the newest and (alternating with the seed) one other version
+                let other = versions[(ti + seed as usize) % versions.len()];
+                versions = vec![*versions.last().unwrap(), other];
+                versions.dedup();
+            }
+            for version in versions {
+                let (model, _f) = model_for_version(version);
+                let mut k = 0;
+                let Ok(e) = build_to(&model, walk, t, &mut k) else { continue };
+                sub.count("allowed_sweep.elements", 1);
+                let first_names: Vec<(ElementName, bool)> = e.list_valid_sub_elements().iter().filter(|i| i.is_allowed).map(|i| (i.element_name, i.is_named)).collect();
+                let limit = if thorough { 24 } else { 8 };
+                let start = (ti + seed as usize) % first_names.len().max(1);
+                for step in 0..first_names.len().min(limit) {
+                    let (n1, named1) = first_names[(start + step) % first_names.len()];
+                    let c1 = if named1 { e.create_named_sub_element(n1, "first") } else { e.create_sub_element(n1) };
+                    let Ok(c1) = c1 else { continue };
+                    for info in e.list_valid_sub_elements() {
+                        let r = crate::panicmon::catch(|| if info.is_named { e.create_named_sub_element(info.element_name, "second") } else { e.create_sub_element(info.element_name) });
+                        sub.evaluations += 1;
+                        sub.count("allowed_sweep.create_attempts", 1);
+                        match r {
+                            Ok(Ok(c2)) => {
+                                if !info.is_allowed {
+                                    let log = vec![format!("{} in {version:?}: after creating {n1}, list_valid_sub_elements() says is_allowed=false for {}", e.xml_path(), info.element_name)];
+                                    viol(sub, "allowed-list/not-allowed-but-creatable", "", format!("{}: {} is reported as not allowed but create succeeds", e.xml_path(), info.element_name), &log, ti as u64, seed);
+                                }
+                                let _ = e.remove_sub_element(c2);
+                            }
+                            Ok(Err(err)) => {
+                                if info.is_allowed {
+                                    let log = vec![format!("{} in {version:?}: after creating {n1}, list_valid_sub_elements() says is_allowed=true for {}", e.xml_path(), info.element_name)];
+                                    viol(sub, "allowed-list/allowed-but-not-creatable", &crate::hist::err_variant(&err), format!("{}: {} is reported as allowed but create fails: {err}", e.xml_path(), info.element_name), &log, ti as u64, seed);
+                                }
+                            }
+                            Err(_) => sub.count("histories_cut_short_by_panic_or_hang(belongs to C12)", 1),
+                        }
+                    }
+                    if e.remove_sub_element(c1).is_err() {
+                        break;
+                    }
+                }
+            }
+        }
+    });
+    rep.require("allowed_sweep.create_attempts", 200_000);
+}
+
 pub fn run(rep: &mut Report, tier: &str) {
     crate::histprops::setup_monitors();
     let thorough = tier == "thorough";
@@ -628,6 +695,7 @@ pub fn run(rep: &mut Report, tier: &str) {
         }
     });
     enum_copy_sweep(rep, &walk, thorough);
+    allowed_sweep(rep, &walk, thorough);
     rep.require("short_name_attack.calls", 2_000);
     rep.require("types_built", (cases / 2) as u64);
     rep.require("o1.range_comparisons", 50_000);
